@@ -78,6 +78,7 @@ pub const INVALID_INDEX: u64 = 0;
 /// SoftState provides state that is useful for logging and debugging.
 /// The state is volatile and does not need to be persisted to the WAL.
 #[derive(Default, PartialEq, Eq, Debug)]
+#[cfg_attr(tikv_raft_rs_verif, derive(Clone))]
 pub struct SoftState {
     /// The potential leader of the cluster.
     pub leader_id: u64,
@@ -87,6 +88,7 @@ pub struct SoftState {
 
 /// UncommittedState is used to keep track of information of uncommitted
 /// log entries on 'leader' node
+#[cfg_attr(tikv_raft_rs_verif, derive(Clone))]
 struct UncommittedState {
     /// Specify maximum of uncommitted entry size.
     /// When this limit is reached, all proposals to append new log will be dropped
@@ -155,6 +157,7 @@ impl UncommittedState {
 ///
 /// It's a helper struct to get around rust borrow checks.
 #[derive(Getters)]
+#[cfg_attr(tikv_raft_rs_verif, derive(Clone))]
 pub struct RaftCore<T: Storage> {
     /// The current election term.
     pub term: u64,
@@ -260,6 +263,7 @@ pub struct RaftCore<T: Storage> {
 
 /// A struct that represents the raft consensus itself. Stores details concerning the current
 /// and possible state the system can take.
+#[cfg_attr(tikv_raft_rs_verif, derive(Clone))]
 pub struct Raft<T: Storage> {
     prs: ProgressTracker,
 
